@@ -276,6 +276,10 @@ func runC17Sequential(w *core.WorkerCtx, idx int, res *core.CaseResult) {
 		}
 		si += nb - 1
 		st = steps[si]
+		// read requests to the coordinator's API come first: reads must leave the tables alone
+		if !w.Race {
+			res.AddStat("api_read_requests", int64(p.apiReads()))
+		}
 		act, drop, byHash := p.disc.ActiveTargets(), p.disc.DropTargets(), p.disc.ActiveTargetsByHash()
 		for h, t := range byHash {
 			hashOfTid[t.ShardTarget.Labels.Get("tid")] = h
